@@ -49,6 +49,19 @@ def run(ctx):
     if zero_eval:
         results.append({"evaluations": zero_eval, "distinct_nontrivial": zero_eval, "failures": zero_fail, "errors": [],
                         "samples": [], "distribution": {"zero_step_time_axes": zero_eval}})
+    # the same series as a 2-D array, in C and in Fortran memory order: a flag must stay on ITS element
+    nd_fail, nd_eval = [], 0
+    for name, ad, cs, r in tied:
+        if name not in cc.ND_TESTS:
+            continue
+        pool = [c for c in cs if (cc.input_length(name, c) or 0) >= 4 and (cc.input_length(name, c) or 1) % 2 == 0]
+        for c in cc.sample(pool, 40 if tier == "quick" else 400, rng):
+            n, f = cc.nd_layout_failures(name, ad, c)
+            nd_eval += n
+            nd_fail += f
+    if nd_eval:
+        results.append({"evaluations": nd_eval, "distinct_nontrivial": nd_eval, "failures": nd_fail, "errors": [],
+                        "samples": [], "distribution": {"two_dimensional_inputs_C_and_F_order": nd_eval}})
     out = adapters.merge(
         results,
         rule="per test: a random sample of the in-domain generated cases (which enumerate every placement of missing values "
